@@ -44,6 +44,7 @@ type Step struct {
 	Raw    string            `json:"raw,omitempty"`
 	ID     *int              `json:"id,omitempty"`
 	Solo   bool              `json:"solo,omitempty"`
+	Settle bool              `json:"settle,omitempty"`
 }
 
 // Do performs one step, waits for the system to block, and logs what it
@@ -59,6 +60,19 @@ func (w *World) Do(st Step) bool {
 	ok := w.do(st)
 	synctest.Wait()
 	w.drainFrames()
+	if st.Settle {
+		// run the gateway's internal actors until they are idle; service
+		// requests stay unanswered
+		for i := 0; i < 2000; i++ {
+			gs := w.pendingGates()
+			if len(gs) == 0 {
+				break
+			}
+			w.release(gs[0])
+			synctest.Wait()
+			w.drainFrames()
+		}
+	}
 
 	if !ok {
 		w.mu.Lock()
